@@ -11,7 +11,7 @@ use oracle::tables;
 use serde_json::json;
 
 pub const ID: &str = "C09";
-pub const FAMS: [&str; 11] = ["byte-at-position", "class-pattern", "two-bytes", "planted-foreign", "single-class-long", "three-bytes", "real-world-prefixes", "token-strings", "edit-session", "unicode-lookalikes", "adjacent-pairs-in-long-strings"];
+pub const FAMS: [&str; 12] = ["byte-at-position", "class-pattern", "two-bytes", "planted-foreign", "single-class-long", "three-bytes", "real-world-prefixes", "token-strings", "edit-session", "unicode-lookalikes", "adjacent-pairs-in-long-strings", "occurrence-counts-at-256"];
 
 const BG: [&[u8]; 3] = [b"0123456789", b"AZ $%*+-./:K7", b"az,!\x00\x7f\x80\xff@[`{"];
 const REPS: [[u8; 2]; 3] = [[b'0', b'9'], [b'A', b':'], [b'a', 0xE9]];
@@ -102,6 +102,31 @@ pub fn jobs(ctx: &Ctx) -> Vec<Job> {
                     p[off + 1] = d;
                     jobs.push(explicit(FAMS[10], p, k, ctx));
                 }
+            }
+        }
+    }
+    // whole-string occurrence counts: every distinct byte value of the HIGHEST class present occurs exactly 256 or 512
+    // times (or 255 / 257: the neighbours), spread through a background of the class below - a classifier that
+    // tallies byte values in 8-bit counters, or looks at a sample, decides such strings from the wrong evidence
+    {
+        let mut rng = Rng::new(ctx.seed ^ 0x256);
+        for i in 0..ctx.tier.pick(240usize, 4_000) {
+            k += 1;
+            let top_class = 1 + i % 2; // alphanumeric-only characters in digits, or other bytes in alphanumerics/digits
+            let distinct = 1 + rng.below(2);
+            let times = [256usize, 512, 256, 255, 257, 768][rng.below(6)];
+            let tops: Vec<u8> = (0..distinct).map(|_| if top_class == 1 { *rng.pick(b"ABCXYZ $%*+-./:") } else { *rng.pick(b",;!_abz\x00\x7f\x80\xff@#") }).collect();
+            let bg_len = rng.below(500);
+            let bg_class = rng.below(top_class);
+            let mut p: Vec<u8> = (0..bg_len).map(|_| if bg_class == 0 { b'0' + rng.below(10) as u8 } else { tables::alnum_char(rng.below(45)) }).collect();
+            for &t in &tops {
+                for _ in 0..times {
+                    let at = rng.below(p.len() + 1);
+                    p.insert(at, t);
+                }
+            }
+            if p.len() <= 1250 {
+                jobs.push(explicit(FAMS[11], p, k, ctx));
             }
         }
     }
@@ -351,7 +376,7 @@ pub fn run(ctx: &Ctx) -> Report {
     let st = pool::run(&jobs, ctx.remaining(), |st, job, _| observe(ctx, st, job));
     let mut rep = Report::new(
         st,
-        "every job rotates through the eight combinations of {version pinned, level given, mask forced} (the decision may depend on none of them); jobs = all 256 byte values at every position of strings of length 1..8 over digit / alphanumeric / other backgrounds (27,648), all 3^L class patterns for L<=8 with two representative characters per class (19,682), all 256^2 two-byte strings (65,536), every ordered pair (character of the 45-set, any byte) adjacent at rotating offsets of an aligned 16-byte block inside strings of 17-40 characters (23,040; thorough: all 16 offsets), in the thorough tier ALL 256^3 three-byte strings (16,777,216), random strings of length <=1200 with one arbitrary byte planted at a random position, the dictionary prefix sweep, token strings, and edit sessions (a digits+alphanumerics+bytes text deleted from the end and typed back character by character, then edited in the middle, every intermediate text built on the same thread); every build uses automatic mode; observed: QRCode.mode == oracle class (45-character set spelled out independently), the mode indicator decoded from the symbol, and the reference decode equals the input byte for byte; distinct key = payload hash; non-trivial = every distinct string",
+        "every job rotates through the eight combinations of {version pinned, level given, mask forced} (the decision may depend on none of them); jobs = all 256 byte values at every position of strings of length 1..8 over digit / alphanumeric / other backgrounds (27,648), all 3^L class patterns for L<=8 with two representative characters per class (19,682), all 256^2 two-byte strings (65,536), strings in which every byte value of the highest class present occurs exactly 255 / 256 / 257 / 512 / 768 times, every ordered pair (character of the 45-set, any byte) adjacent at rotating offsets of an aligned 16-byte block inside strings of 17-40 characters (23,040; thorough: all 16 offsets), in the thorough tier ALL 256^3 three-byte strings (16,777,216), random strings of length <=1200 with one arbitrary byte planted at a random position, the dictionary prefix sweep, token strings, and edit sessions (a digits+alphanumerics+bytes text deleted from the end and typed back character by character, then edited in the middle, every intermediate text built on the same thread); every build uses automatic mode; observed: QRCode.mode == oracle class (45-character set spelled out independently), the mode indicator decoded from the symbol, and the reference decode equals the input byte for byte; distinct key = payload hash; non-trivial = every distinct string",
     );
     rep.exhaustive = Some(true);
     rep.expected_sets = vec![("classes", 3), ("byte_values_seen", 256)];
